@@ -116,15 +116,15 @@ def render(items: dict) -> str:
              "namespace NauyacaVerif.Gen"]
     for k in ("proxyFollowRedirects", "proxyDecodeText", "proxyTofu"):
         v = items.get(k)
-        lines.append(f"def {k} : Bool := {'true' if v else 'false'}" if isinstance(v, bool) else f"-- {k}: NOT FOUND")
+        lines.append(core.lean_item(k, "Bool", ("true" if v else "false") if isinstance(v, bool) else None))
     for k in ("proxyStatusTimeout", "proxyStatusConnection", "proxyStatusOther"):
         v = items.get(k)
-        lines.append(f"def {k} : Nat := {v}" if isinstance(v, int) else f"-- {k}: NOT FOUND")
+        lines.append(core.lean_item(k, "Nat", str(v) if isinstance(v, int) else None))
     v = items.get("proxyUrlParts")
-    lines.append("def proxyUrlParts : List (List Nat) := [" + ", ".join(lean_str(s) for s in v) + "]" if v is not None else "-- proxyUrlParts: NOT FOUND")
+    lines.append(core.lean_item("proxyUrlParts", "List (List Nat)", None if v is None else "[" + ", ".join(lean_str(s) for s in v) + "]"))
     for k in ("proxyPathSource", "proxyQuerySource"):
         v = items.get(k)
-        lines.append(f"def {k} : List Nat := {lean_str(v)}" if v is not None else f"-- {k}: NOT FOUND")
+        lines.append(core.lean_item(k, "List Nat", None if v is None else lean_str(v)))
     lines.append("end NauyacaVerif.Gen")
     return "\n".join(lines) + "\n"
 
